@@ -188,11 +188,13 @@ def evalRange (ins : Ins) (r : Range) : BV4 :=
 def evalRewire (ranges : List Range) (ins : Ins) : BV4 :=
   ranges.flatMap (evalRange ins)
 
-/-! ## Node_Multiplexer (`Node_Multiplexer.cpp:37-125`); inputs `[selector, in0, in1, …]`
+/-! ## Node_Multiplexer (`Node_Multiplexer.cpp:37-137`); inputs `[selector, in0, in1, …]`
 
-A selector with *any* undefined bit takes the early branch (`:49-87`) that merges **all** data inputs
-bit by bit; the later "partially defined selector" loop over `allPossibleUndefinedValues` with
-`mergeUndefinedSelection` (`:104-121`) is guarded by the same predicate and therefore unreachable. -/
+A selector with *any* undefined bit takes the early branch (`:49-99`): if the largest value the selector may stand for
+(undefined bits read as 1) addresses no input, the whole output is undefined (`:51-60`) — exactly as a defined selector
+beyond the inputs does; otherwise **all** data inputs are merged bit by bit.  The later "partially defined selector" loop over
+`allPossibleUndefinedValues` with `mergeUndefinedSelection` (`:116-133`) is guarded by the same predicate and therefore
+unreachable. -/
 
 /-- bit `b` of a data input; an input without state reads `value = false, defined = false` (`:70-71,77-78`) -/
 def optBit (o : Option BV4) (b : Nat) : B4 :=
@@ -214,7 +216,9 @@ def evalMux (w : Nat) (ins : Ins) : BV4 :=
   | [] => undef w
   | none :: _ => undef w
   | some sel :: data =>
-    if !sel.allDef then tab w (mergeBit data)
+    if !sel.allDef then
+      -- `largestPossibleSelector >= getNumInputPorts()-1`
+      if sel.maxNat ≥ data.length then undef w else tab w (mergeBit data)
     else
       let selector := sel.toNat
       if selector ≥ data.length then undef w
